@@ -94,8 +94,13 @@ type Case struct {
 	// Then: further calls on the same client after the first Subscribe (and the
 	// Close the acts made, if any) have returned, one after the other: sub,
 	// close, subclose (Subscribe and Close started together; ReconnectClient only).
-	Then  []string `json:"then,omitempty"`
-	Trace []Ev     `json:"trace,omitempty"`
+	Then []string `json:"then,omitempty"`
+	// NoCB: the ReconnectClient is built with nil disconnect and reset callbacks
+	// (their steps are then invisible; gates disc / reset / sleep do not exist).
+	NoCB bool `json:"nocb,omitempty"`
+	// SubDelay: microseconds the first Subscribe call is held back after the racing acts were released.
+	SubDelay int  `json:"subdelay,omitempty"`
+	Trace    []Ev `json:"trace,omitempty"`
 }
 
 func (c Case) reconnect() bool { return strings.HasPrefix(c.Kind, "re") }
@@ -187,11 +192,20 @@ type scen struct {
 	cancelCalled bool // under mu
 	ending       bool // under mu: the first session is over, late acts are dropped
 	inThen       int32
+	lastDisc     int64 // unix nanos at which the disconnect callback last returned
+	kept         []keptNote
 	stopCalled   int32
 	closeFailed  int32
 	closeDone    chan struct{}
 	dead         chan struct{}
 	deadOnce     sync.Once
+}
+
+// keptNote is a notification the application kept: the slice it was handed
+// and a private copy of what it contained at that moment.
+type keptNote struct {
+	got  []string
+	copy []string
 }
 
 var scens sync.Map // id -> *scen
@@ -468,6 +482,17 @@ func (g *gstream) RecvMsg(interface{}) error    { return errImpl }
 
 func gnmiMsg(k, i, n int) *gpb.SubscribeResponse {
 	no := &gpb.Notification{Timestamp: int64(1000*k + 10*i)}
+	if n >= 2 {
+		// most of the path travels as the prefix shared by the updates
+		no.Prefix = &gpb.Path{Elem: []*gpb.PathElem{{Name: "u"}, {Name: strconv.Itoa(k)}, {Name: strconv.Itoa(i)}, {Name: "p"}, {Name: "q"}}}
+		for j := 0; j < n; j++ {
+			no.Update = append(no.Update, &gpb.Update{
+				Path: &gpb.Path{Elem: []*gpb.PathElem{{Name: strconv.Itoa(j)}}},
+				Val:  &gpb.TypedValue{Value: &gpb.TypedValue_IntVal{IntVal: int64(j)}},
+			})
+		}
+		return &gpb.SubscribeResponse{Response: &gpb.SubscribeResponse_Update{Update: no}}
+	}
 	for j := 0; j < n; j++ {
 		no.Update = append(no.Update, &gpb.Update{
 			Path: &gpb.Path{Elem: []*gpb.PathElem{{Name: "u"}, {Name: strconv.Itoa(k)}, {Name: strconv.Itoa(i)}, {Name: strconv.Itoa(j)}}},
@@ -632,12 +657,21 @@ func runCase(c Case) []Ev {
 		case client.Sync:
 			s.log(Ev{T: "sync"})
 		case client.Update:
-			if len(v.Path) == 4 {
+			s.mu.Lock()
+			s.kept = append(s.kept, keptNote{got: v.Path, copy: append([]string{}, v.Path...)})
+			s.mu.Unlock()
+			switch len(v.Path) {
+			case 4:
 				a, _ := strconv.Atoi(v.Path[1])
 				b, _ := strconv.Atoi(v.Path[2])
 				d, _ := strconv.Atoi(v.Path[3])
 				s.log(Ev{T: "upd", K: a, I: b, J: d})
-			} else {
+			case 6: // [u k i p q j]: the first five elements came as the notification's prefix
+				a, _ := strconv.Atoi(v.Path[1])
+				b, _ := strconv.Atoi(v.Path[2])
+				d, _ := strconv.Atoi(v.Path[5])
+				s.log(Ev{T: "upd", K: a, I: b, J: d})
+			default:
 				s.log(Ev{T: "panic"})
 			}
 		default:
@@ -655,9 +689,12 @@ func runCase(c Case) []Ev {
 		base = &client.BaseClient{}
 	}
 	var cl client.Client = base
-	if c.reconnect() {
+	if c.reconnect() && c.NoCB {
+		cl = client.Reconnect(base, nil, nil)
+	} else if c.reconnect() {
 		cl = client.Reconnect(base,
 			func() {
+				defer func() { atomic.StoreInt64(&s.lastDisc, time.Now().UnixNano()) }()
 				k := int(atomic.LoadInt32(&s.curAttempt))
 				s.log(Ev{T: "disc"})
 				s.gate(fmt.Sprintf("disc:%d", k))
@@ -681,6 +718,9 @@ func runCase(c Case) []Ev {
 			},
 			func() {
 				k := int(atomic.LoadInt32(&s.curAttempt))
+				if d := atomic.LoadInt64(&s.lastDisc); d != 0 && time.Now().UnixNano()-d < int64(client.RetryBaseDelay)/2 {
+					s.log(Ev{T: "nobackoff"}) // the retry did not wait for (half of) the smallest backoff interval
+				}
 				s.log(Ev{T: "reset"})
 				s.gate(fmt.Sprintf("reset:%d", k))
 			})
@@ -731,6 +771,9 @@ func runCase(c Case) []Ev {
 			}
 		}()
 		<-start
+		if c.SubDelay > 0 {
+			time.Sleep(time.Duration(c.SubDelay) * time.Microsecond)
+		}
 		s.log(Ev{T: "subcall"})
 		err := cl.Subscribe(ctx, q, "c18")
 		r := rcls(err)
@@ -831,6 +874,20 @@ func runCase(c Case) []Ev {
 			}
 		}
 	}
+	s.mu.Lock()
+	for _, kn := range s.kept {
+		same := len(kn.got) == len(kn.copy)
+		for i := 0; same && i < len(kn.got); i++ {
+			same = kn.got[i] == kn.copy[i]
+		}
+		if !same {
+			if !s.frozen {
+				s.trace = append(s.trace, Ev{T: "corrupt"})
+			}
+			break
+		}
+	}
+	s.mu.Unlock()
 	s.freeze()
 	s.kill()
 	return s.snapshot()
@@ -915,6 +972,12 @@ func evTerm(e Ev) string {
 		return "ECloseRet " + vh.Bool(e.OK)
 	case "hang":
 		return "EHang"
+	case "corrupt":
+		return "ECorrupt"
+	case "nobackoff":
+		return "ENoBackoff"
+	case "race":
+		return "ERace"
 	}
 	return "EPanic"
 }
@@ -932,7 +995,7 @@ func caseTerm(c Case) string {
 	for i, e := range c.Trace {
 		es[i] = evTerm(e)
 	}
-	return fmt.Sprintf("(%s, %s, %s)", vh.Bool(c.reconnect()), vh.List(as), vh.List(es))
+	return fmt.Sprintf("(%s, %s, %s, %s)", vh.Bool(c.reconnect()), vh.Bool(!(c.reconnect() && c.NoCB)), vh.List(as), vh.List(es))
 }
 
 // ---------------------------------------------------------------------------
@@ -1098,7 +1161,7 @@ func nontrivial(c Case) bool {
 }
 
 func canonical(c Case) string {
-	b, _ := json.Marshal([]interface{}{c.Kind, c.Inner, c.Attempts, c.Ops, c.Then})
+	b, _ := json.Marshal([]interface{}{c.Kind, c.Inner, c.Attempts, c.Ops, c.Then, c.NoCB, c.SubDelay})
 	return string(b)
 }
 
@@ -1217,6 +1280,34 @@ func main() {
 				}
 			}
 		}
+		if o.Tier == "race" {
+			// the small family run under the race detector: Close racing Subscribe at
+			// its start, and later calls, through a ReconnectClient
+			for _, kind := range []string{"rebase", "recache"} {
+				for _, d := range []int{0, 5, 20, 100, 300} {
+					for _, sd := range []int{0, 5, 20, 100, 300} {
+						for rep := 0; rep < 3; rep++ {
+							cs = append(cs, Case{Family: "race", Kind: kind, Inner: "fake", Attempts: []Attempt{ok(msg(), block())}, Ops: []Act{{Gate: "race", What: "close", Delay: d}}, SubDelay: sd, Then: []string{"subclose", "sub"}})
+						}
+					}
+				}
+				cs = append(cs, Case{Family: "race", Kind: kind, Inner: "gnmi", Attempts: []Attempt{ok(msg(), eof()), ok(msg3(), block())}, Ops: []Act{{Gate: "h:1:1", What: "close"}}, Then: []string{"sub", "close"}})
+				cs = append(cs, Case{Family: "race", Kind: kind, Inner: "fake", Attempts: []Attempt{ok(msg(), ierr()), ok(block())}, Ops: []Act{{Gate: "sleep:0", What: "close", Delay: 500}}})
+			}
+			for _, kind := range []string{"base", "cache"} {
+				cs = append(cs, Case{Family: "race", Kind: kind, Inner: "fake", Attempts: []Attempt{ok(msg(), msg(), msg(), block())}, Ops: []Act{{Gate: "postsub:0", What: "close", Delay: 5}}, Then: []string{"close", "sub"}})
+				cs = append(cs, Case{Family: "race", Kind: kind, Inner: "fake", Attempts: []Attempt{ok(msg(), msg(), msg(), block())}, Ops: []Act{{Gate: "race", What: "close", Delay: 50}}})
+			}
+			runAll(cs, par)
+			for _, c := range cs {
+				if c.Trace != nil {
+					e.emit(c)
+				}
+			}
+			e.flush()
+			meta.Write(o.Out)
+			return
+		}
 		// the real client/gnmi constructor against targets that never connect
 		dkinds := []string{"rebase", "base"}
 		if o.Thorough() {
@@ -1271,7 +1362,7 @@ func main() {
 						if !o.Thorough() && (si+fi+ti)%2 == 1 && (kind == "recache" || kind == "cache") {
 							continue
 						}
-						cs = append(cs, Case{Family: "calls", Kind: kind, Inner: inner, Attempts: as, Ops: first, Then: th})
+						cs = append(cs, Case{Family: "calls", Kind: kind, Inner: inner, Attempts: as, Ops: first, Then: th, NoCB: rc && (si+2*fi+ti)%5 == 0})
 					}
 				}
 			}
@@ -1318,7 +1409,8 @@ func main() {
 					then = append(then, []string{"sub", "sub", "close", "subclose"}[rr.Intn(4)])
 				}
 			}
-			cs = append(cs, Case{Family: "random", Kind: kind, Inner: inner, Attempts: as, Ops: randActs(rr, as, strings.HasPrefix(kind, "re")), Then: then})
+			cs = append(cs, Case{Family: "random", Kind: kind, Inner: inner, Attempts: as, Ops: randActs(rr, as, strings.HasPrefix(kind, "re")), Then: then,
+				NoCB: strings.HasPrefix(kind, "re") && rr.Chance(1, 8)})
 		}
 	}
 	runAll(cs, par)
